@@ -37,8 +37,32 @@ func Corpus() []opsim.Scenario {
 	}
 }
 
+// IdleCorpus: Shutdown after the operator has been left alone for a long time (real seconds):
+// queues that have been empty for long, a worker that has been inside a handler for long, and
+// ticks arriving after the stop request.  One in the quick tier, more and longer ones in thorough.
+func IdleCorpus(tier string) []opsim.Scenario {
+	cfg := []opsim.Hook{{Id: 1, Sched: []opsim.SB{{Name: 1, Queue: 1, Cron: 1}, {Name: 2, Queue: 2, Cron: 2}}}}
+	idle := func(ms int) opsim.Action { return opsim.Action{Kind: "Idle", Ms: ms} }
+	out := []opsim.Scenario{
+		{Cfg: cfg, Acts: []opsim.Action{{Kind: "Boot"}, {Kind: "Tick", C: 1}, {Kind: "Finish", Q: 1, Ok: true}, idle(31000), {Kind: "Stop"}, {Kind: "Tick", C: 1}, {Kind: "Tick", C: 2}}},
+	}
+	if tier == "thorough" {
+		out = append(out,
+			opsim.Scenario{Cfg: cfg, Acts: []opsim.Action{{Kind: "Boot"}, {Kind: "Tick", C: 1}, idle(45000), {Kind: "Tick", C: 2}, {Kind: "Stop"}, {Kind: "Tick", C: 2}, {Kind: "Finish", Q: 1, Ok: true}, {Kind: "Finish", Q: 2, Ok: true}, {Kind: "Tick", C: 1}}},
+			opsim.Scenario{Cfg: cfg, Acts: []opsim.Action{{Kind: "Boot"}, idle(65000), {Kind: "Tick", C: 1}, {Kind: "Stop"}, {Kind: "Tick", C: 2}, {Kind: "Finish", Q: 1, Ok: false}}},
+			opsim.Scenario{Cfg: cfg, Acts: []opsim.Action{{Kind: "Boot"}, {Kind: "Tick", C: 1}, {Kind: "FinishWait", Q: 1}, idle(35000), {Kind: "Stop"}, {Kind: "Elapse", Q: 1}, {Kind: "Tick", C: 2}}})
+	}
+	return out
+}
+
 func Gen(r *core.Rng, tier string) ([]core.In[opsim.Scenario], bool) {
 	var ins []core.In[opsim.Scenario]
+	if tier != "search" {
+		// first: they take real time and run beside everything else
+		for _, sc := range IdleCorpus(tier) {
+			ins = append(ins, core.In[opsim.Scenario]{Input: sc, Stream: "long-idle"})
+		}
+	}
 	for _, sc := range Corpus() {
 		ins = append(ins, core.In[opsim.Scenario]{Input: sc, Stream: "corpus"})
 	}
@@ -58,10 +82,10 @@ func Gen(r *core.Rng, tier string) ([]core.In[opsim.Scenario], bool) {
 
 var Driver = core.Driver[opsim.Scenario, opsim.Trace]{
 	Spec: core.Spec{Property: "C17", Imports: []string{"Op_Model", "Op_Corr", "C17_Spec", "C17_Corr"}, Corr: "C17_Corr", ShrinkKey: "acts",
-		Rule: "operator-level scenarios (see C03) in which Shutdown() is requested at a random step (9% per step) and up to 10 further ticks / kube events / ends of open executions follow; 60% of the failing executions put their queue into a positive back-off delay (a long one, ended by the harness, or - 35% - one shorter than the wait loop's check interval, followed at once by Shutdown or by its natural end), so Shutdown also lands while workers wait in a back-off delay; non-trivial = >=4 actions of >=2 kinds with >=2 executions; distinct = distinct (config, action list)"},
+		Rule: "operator-level scenarios (see C03) in which Shutdown() is requested at a random step (9% per step) and up to 10 further ticks / kube events / ends of open executions follow; 60% of the failing executions put their queue into a positive back-off delay (a long one, ended by the harness, or - 35% - one shorter than the wait loop's check interval, followed at once by Shutdown or by its natural end), so Shutdown also lands while workers wait in a back-off delay; stream long-idle: Shutdown after the operator has been left alone for 31 s of real time (thorough: also 35, 45, 65 s, with an execution open / a queue in its back-off delay meanwhile), time passing being a stutter step of the model (C17_time_is_stutter); non-trivial = >=4 actions of >=2 kinds with >=2 executions; distinct = distinct (config, action list)"},
 	Gen:      Gen,
 	Run:      opsim.RunScenario,
 	Render:   func(in opsim.Scenario, obs *opsim.Trace, crash string) core.Case { return opsim.Render(in, obs, crash) },
 	Explicit: opsim.ExplicitInput,
-	PerShard: 40, Workers: 8, CaseTimout: 30 * time.Second,
+	PerShard: 40, Workers: 8, CaseTimout: 120 * time.Second,
 }
